@@ -31,7 +31,7 @@ fn lib_matches_ref(u: &Unit, r: &RefUnit) -> Result<(), String> {
 fn number_roundtrips(x: f64, unit: &'static Unit) -> Verdict {
     let v = Value::Number(Number { value: x, unit: Some(unit) });
     let ok = |back: &Value| matches!(back, Value::Number(n) if n.value == x && n.unit.map_or(false, |u| std::ptr::eq(u, unit)));
-    let z = to_zinc_string(&v).map_err(|e| ("zinc-encode".to_string(), e.to_string()))?;
+    let z = super::common::zinc_text_all_writers(&v).map_err(|(s, d)| (format!("zinc-{s}"), d))?;
     let back = from_str(&z).map_err(|e| ("zinc-decode".to_string(), format!("{e}; text={z:?}")))?;
     if !ok(&back) {
         return Err(("zinc-roundtrip".into(), format!("{z:?} decodes to {back:?}")));
